@@ -676,6 +676,24 @@ class Normalizer(object):
                     return ast.copy_location(ast.Call(
                         func=f.args[0], args=f.args[1:] + n.args,
                         keywords=f.keywords + n.keywords), n)
+                # struct.Struct(F).pack(a..) -> struct.pack(F, a..), etc.
+                if isinstance(f, ast.Attribute) and f.attr in (
+                        'pack', 'unpack', 'unpack_from', 'pack_into',
+                        'iter_unpack') and isinstance(f.value, ast.Call) \
+                        and isinstance(f.value.func, (ast.Name,
+                                                      ast.Attribute)) and \
+                        ext(f.value.func) == 'struct.Struct' and \
+                        len(f.value.args) == 1 and not f.value.keywords:
+                    changed[0] = True
+                    base = f.value.func
+                    mod = base.value if isinstance(base, ast.Attribute) \
+                        else None
+                    if mod is not None:
+                        return ast.copy_location(ast.Call(
+                            func=ast.Attribute(value=mod, attr=f.attr,
+                                               ctx=ast.Load()),
+                            args=[f.value.args[0]] + n.args,
+                            keywords=n.keywords), n)
                 # getattr(o, 'name')  ->  o.name
                 if isinstance(f, ast.Name) and f.id == 'getattr' and \
                         len(n.args) == 2 and not n.keywords and \
@@ -689,9 +707,34 @@ class Normalizer(object):
                         value=n.args[0], attr=n.args[1].value,
                         ctx=ast.Load()), n)
                 return n
+        class A(ast.NodeTransformer):
+            # struct.Struct('<fmt>').size is a constant
+            def visit_FunctionDef(self, n):
+                return n if n is not fnode else self.generic_visit(n)
+            visit_AsyncFunctionDef = visit_FunctionDef
+
+            def visit_Attribute(self, n):
+                self.generic_visit(n)
+                v = n.value
+                if n.attr == 'size' and isinstance(n.ctx, ast.Load) and \
+                        isinstance(v, ast.Call) and isinstance(
+                            v.func, (ast.Name, ast.Attribute)) and \
+                        ext(v.func) == 'struct.Struct' and \
+                        len(v.args) == 1 and isinstance(
+                            v.args[0], ast.Constant) and isinstance(
+                                v.args[0].value, (str, bytes)):
+                    import struct as _struct
+                    try:
+                        size = _struct.calcsize(v.args[0].value)
+                    except _struct.error:
+                        return n
+                    changed[0] = True
+                    return ast.copy_location(ast.Constant(value=size), n)
+                return n
         me = self
         fnode.body = block(fnode.body)
         E().visit(fnode)
+        A().visit(fnode)
         if changed[0]:
             ast.fix_missing_locations(fnode)
             self.stats['idioms'] = self.stats.get('idioms', 0) + 1
@@ -1323,9 +1366,60 @@ class Normalizer(object):
                                 targets=[t], value=v), st))
                         changed = True
                         continue
+                # q, r = divmod(a, b)  ->  q = a // b ; r = a % b  (a name
+                # nothing reads is dropped)
+                if isinstance(st, ast.Assign) and len(st.targets) == 1 and \
+                        isinstance(st.targets[0], ast.Tuple) and \
+                        len(st.targets[0].elts) == 2 and all(
+                            isinstance(t, ast.Name)
+                            for t in st.targets[0].elts) and isinstance(
+                                st.value, ast.Call) and isinstance(
+                                    st.value.func, ast.Name) and \
+                        st.value.func.id == 'divmod' and \
+                        len(st.value.args) == 2 and not st.value.keywords \
+                        and 'divmod' not in self._all_names_stored(fnode):
+                    a, b = st.value.args
+                    q, r = st.targets[0].elts
+                    reads = {}
+                    for x in ast.walk(fnode):
+                        if isinstance(x, ast.Name) and isinstance(
+                                x.ctx, ast.Load):
+                            reads[x.id] = reads.get(x.id, 0) + 1
+                    pure = not any(
+                        isinstance(x, ast.Call) and not (isinstance(
+                            x.func, ast.Name) and x.func.id in (
+                                'round', 'int', 'abs', 'len', 'float'))
+                        for v in (a, b) for x in ast.walk(v))
+                    want_q, want_r = reads.get(q.id, 0) > 0, \
+                        reads.get(r.id, 0) > 0
+                    if pure and q.id != r.id and (want_q + want_r == 1
+                                                  or not has_call(st.value.args[0])
+                                                  and not has_call(st.value.args[1])):
+                        if want_q:
+                            out.append(ast.copy_location(ast.Assign(
+                                targets=[q], value=ast.BinOp(
+                                    left=copy.deepcopy(a), op=ast.FloorDiv(),
+                                    right=copy.deepcopy(b))), st))
+                        if want_r:
+                            out.append(ast.copy_location(ast.Assign(
+                                targets=[r], value=ast.BinOp(
+                                    left=copy.deepcopy(a), op=ast.Mod(),
+                                    right=copy.deepcopy(b))), st))
+                        ast.fix_missing_locations(out[-1]) if out else None
+                        changed = True
+                        continue
                 out.append(st)
             setattr(owner, f, out)
+        if changed:
+            ast.fix_missing_locations(fnode)
         return changed
+
+    @staticmethod
+    def _all_names_stored(fnode):
+        return set(x.id for x in ast.walk(fnode) if isinstance(x, ast.Name)
+                   and isinstance(x.ctx, ast.Store)) | set(
+                       x.arg for x in ast.walk(fnode)
+                       if isinstance(x, ast.arg))
 
     def _blocks(self, fnode):
         """(owner, field, list) of every statement list of the function
@@ -1343,8 +1437,28 @@ class Normalizer(object):
                 stack.extend(sub_blocks(st))
         return out
 
+    IMMUTABLE_MAKERS = ('struct.Struct', 're.compile')
+
+    def _immutable_value(self, e):
+        """struct.Struct('<fmt>') / re.compile('<pattern>'[, flags]): an
+        immutable object made from constants -- every copy is as good as
+        the one bound to the name"""
+        fi = getattr(self, '_cur_fi', None)
+        if not (isinstance(e, ast.Call) and fi is not None and isinstance(
+                e.func, (ast.Name, ast.Attribute)) and e.args and
+                not e.keywords and all(isinstance(a, ast.Constant)
+                                       for a in e.args)):
+            return False
+        try:
+            ent = self.db.resolve_dotted(fi.module, e.func)
+        except AnalysisError:
+            return False
+        return getattr(ent, 'dotted', None) in self.IMMUTABLE_MAKERS
+
     def stable(self, e, stores):
         """Call-free expression over places nothing re-binds."""
+        if self._immutable_value(e):
+            return True
         for n in ast.walk(e):
             if isinstance(n, (ast.Call, ast.Await, ast.Yield, ast.YieldFrom,
                               ast.NamedExpr, ast.Lambda, ast.GeneratorExp,
@@ -1510,14 +1624,44 @@ class Normalizer(object):
 
 
 def materialise_factories(db):
-    """N11.  `name = factory(consts...)` in a class body, where factory is a
-    module-level function (not a known unit) that only defines one nested
-    function and returns it (possibly wrapped in staticmethod/classmethod):
-    the class gets that function as an ordinary method, the closure variables
-    replaced by the constant arguments.  Returns the number of methods made.
-    """
+    """N11.  `name = factory(consts...)` (or `a, b = factory(consts...)`) in
+    a class body, where factory is a module-level function (not a known
+    unit) that only binds a few locals from pure expressions, defines nested
+    functions and returns them (possibly wrapped in staticmethod /
+    classmethod, possibly as a tuple): the class gets those functions as
+    ordinary methods, the closure variables replaced by the constant
+    arguments and the factory's locals recomputed at the top of each.
+    Returns the names of the methods made."""
     known = known_units()[0]
     made = []
+
+    def unwrap(e, inners):
+        wrap = None
+        if isinstance(e, ast.Call) and isinstance(e.func, ast.Name) and \
+                e.func.id in ('staticmethod', 'classmethod') and \
+                len(e.args) == 1 and not e.keywords:
+            wrap, e = e.func.id, e.args[0]
+        if isinstance(e, ast.Name) and e.id in inners:
+            return inners[e.id], wrap
+        return None
+
+    def pure_expr(e, m):
+        """no in-repo call, no comprehension side doors: library
+        constructors, arithmetic, names, constants"""
+        for x in ast.walk(e):
+            if isinstance(x, (ast.Yield, ast.YieldFrom, ast.Await,
+                              ast.NamedExpr, ast.Lambda)):
+                return False
+            if isinstance(x, ast.Call):
+                if not isinstance(x.func, (ast.Name, ast.Attribute)):
+                    return False
+                try:
+                    ent = db.resolve_dotted(m, x.func)
+                except AnalysisError:
+                    return False
+                if ent is not None and getattr(ent, 'dotted', None) is None:
+                    return False
+        return True
     for m in db.modules.values():
         factories = {}
         for st in m.tree.body:
@@ -1529,51 +1673,65 @@ def materialise_factories(db):
                     body[0].value, ast.Constant) and isinstance(
                         body[0].value.value, str):
                 body = body[1:]
-            if len(body) != 2 or not isinstance(body[0], ast.FunctionDef) \
-                    or not isinstance(body[1], ast.Return) or \
-                    body[0].decorator_list:
+            if len(body) < 2 or not isinstance(body[-1], ast.Return) or \
+                    body[-1].value is None:
                 continue
-            inner, ret = body[0], body[1].value
-            wrap = None
-            if isinstance(ret, ast.Call) and isinstance(
-                    ret.func, ast.Name) and ret.func.id in (
-                        'staticmethod', 'classmethod') and \
-                    len(ret.args) == 1 and not ret.keywords:
-                wrap, ret = ret.func.id, ret.args[0]
-            if not (isinstance(ret, ast.Name) and ret.id == inner.name):
+            pre, inners, okk = [], {}, True
+            for x in body[:-1]:
+                if isinstance(x, ast.Assign) and len(x.targets) == 1 and \
+                        isinstance(x.targets[0], ast.Name) and not inners \
+                        and pure_expr(x.value, m):
+                    pre.append(x)
+                elif isinstance(x, ast.FunctionDef) and \
+                        not x.decorator_list and not contains(
+                            x.body, (ast.Global, ast.Nonlocal)):
+                    inners[x.name] = x
+                else:
+                    okk = False
+            if not okk or not inners:
+                continue
+            ret = body[-1].value
+            outs = [unwrap(e, inners) for e in ret.elts] if isinstance(
+                ret, ast.Tuple) else [unwrap(ret, inners)]
+            if any(o is None for o in outs):
                 continue
             a = st.args
             if a.kwonlyargs or a.kwarg or a.defaults or a.posonlyargs:
                 continue
-            if contains(inner.body, (ast.Global, ast.Nonlocal)):
-                continue
-            factories[st.name] = (st, inner, wrap)
+            factories[st.name] = (st, pre, outs, isinstance(ret, ast.Tuple))
         if not factories:
             continue
         for cls in [n for n in ast.walk(m.tree) if isinstance(n,
                                                               ast.ClassDef)]:
-            for i, st in enumerate(cls.body):
-                if not (isinstance(st, ast.Assign) and len(st.targets) == 1
-                        and isinstance(st.targets[0], ast.Name)):
+            i = -1
+            while i + 1 < len(cls.body):
+                i += 1
+                st = cls.body[i]
+                if not (isinstance(st, ast.Assign) and len(st.targets) == 1):
+                    continue
+                tg = st.targets[0]
+                names = [tg.id] if isinstance(tg, ast.Name) else (
+                    [x.id for x in tg.elts] if isinstance(
+                        tg, (ast.Tuple, ast.List)) and all(
+                            isinstance(x, ast.Name) for x in tg.elts)
+                    else None)
+                if names is None:
                     continue
                 v = st.value
                 outer_wrap = None
                 if isinstance(v, ast.Call) and isinstance(
                         v.func, ast.Name) and v.func.id in (
                             'staticmethod', 'classmethod') and \
-                        len(v.args) == 1 and not v.keywords:
+                        len(v.args) == 1 and not v.keywords and \
+                        isinstance(tg, ast.Name):
                     outer_wrap, v = v.func.id, v.args[0]
                 if not (isinstance(v, ast.Call) and isinstance(
                         v.func, ast.Name) and v.func.id in factories
                         and not v.keywords):
                     continue
-                if any(isinstance(c, ast.stmt) and any(
-                        isinstance(x, ast.Name) and x.id == v.func.id
-                        and isinstance(x.ctx, ast.Store)
-                        for x in ast.walk(c)) for c in cls.body):
-                    continue
-                fdef, inner, wrap = factories[v.func.id]
-                if wrap and outer_wrap:
+                fdef, pre, outs, is_tuple = factories[v.func.id]
+                if is_tuple != isinstance(tg, (ast.Tuple, ast.List)) or \
+                        len(outs) != len(names):
                     continue
                 if not all(isinstance(x, ast.Constant) or (
                         isinstance(x, ast.UnaryOp) and isinstance(
@@ -1587,30 +1745,59 @@ def materialise_factories(db):
                 if fdef.args.vararg is not None:
                     exprs[fdef.args.vararg.arg] = ast.Tuple(
                         elts=list(v.args[len(params):]), ctx=ast.Load())
-                new = copy.deepcopy(inner)
-                # names the nested function binds itself are its own
-                own = set(x.arg for x in ast.walk(new.args)
-                          if isinstance(x, ast.arg))
-                for x in walk_shallow(new.body):
-                    if isinstance(x, ast.Name) and isinstance(
-                            x.ctx, (ast.Store, ast.Del)):
-                        own.add(x.id)
-                if own & set(exprs):
+                pre_names = [x.targets[0].id for x in pre]
+                news = []
+                for nm, (inner, wrap) in zip(names, outs):
+                    if wrap and outer_wrap:
+                        news = None
+                        break
+                    new = copy.deepcopy(inner)
+                    # names the nested function binds itself are its own
+                    own = set(x.arg for x in ast.walk(new.args)
+                              if isinstance(x, ast.arg))
+                    for x in walk_shallow(new.body):
+                        if isinstance(x, ast.Name) and isinstance(
+                                x.ctx, (ast.Store, ast.Del)):
+                            own.add(x.id)
+                    if own & (set(exprs) | set(pre_names)):
+                        news = None
+                        break
+                    sub = Subst(dict(exprs), {})
+                    head = [sub.visit(copy.deepcopy(x)) for x in pre]
+                    new.body = head + [sub.visit(b) for b in new.body]
+                    new.name = nm
+                    w = wrap or outer_wrap
+                    new.decorator_list = [ast.Name(id=w, ctx=ast.Load())] \
+                        if w else []
+                    for x in ast.walk(new):
+                        if isinstance(x, (ast.expr, ast.stmt)):
+                            ast.copy_location(x, st)
+                    ast.fix_missing_locations(new)
+                    news.append(new)
+                if not news:
                     continue
-                sub = Subst({k: e for k, e in exprs.items()}, {})
-                new.body = [sub.visit(b) for b in new.body]
-                new.name = st.targets[0].id
-                w = wrap or outer_wrap
-                new.decorator_list = [ast.Name(id=w, ctx=ast.Load())] \
-                    if w else []
-                ast.copy_location(new, st)
-                for x in ast.walk(new):
-                    if not hasattr(x, 'lineno') and isinstance(
-                            x, (ast.expr, ast.stmt)):
-                        ast.copy_location(x, st)
-                ast.fix_missing_locations(new)
-                cls.body[i] = new
-                made.append('%s:%s.%s' % (m.name, cls.name, new.name))
+                cls.body[i:i + 1] = news
+                i += len(news) - 1
+                made.extend('%s:%s.%s' % (m.name, cls.name, n.name)
+                            for n in news)
+        # a factory nothing refers to any more is not part of the program
+        for name, (fdef, _, _, _) in list(factories.items()):
+            refs = [x for x in ast.walk(m.tree) if isinstance(x, ast.Name)
+                    and x.id == name]
+            strs = [x for x in ast.walk(m.tree) if isinstance(x, ast.Constant)
+                    and x.value == name]
+            imported = any(
+                isinstance(x, ast.ImportFrom) and any(
+                    al.name == name or (al.name == '*' and
+                                        not name.startswith('_'))
+                    for al in x.names)
+                and (x.module or '').split('.')[-1] == m.name.split('.')[-1]
+                or isinstance(x, ast.Attribute) and x.attr == name
+                for m2 in db.modules.values() if m2 is not m
+                for x in ast.walk(m2.tree))
+            if not refs and not strs and not imported and any(
+                    mm.startswith(m.name + ':') for mm in made):
+                m.tree.body = [x for x in m.tree.body if x is not fdef]
     return made
 
 
